@@ -7,11 +7,19 @@
  * stdin (one command per line, numbers decimal unless noted, ids and payloads hex):
  *   R                                           reset -> {"reset":1}
  *   T                                           service table and pixel formats of the library
- *   D api fmt rate spl soff id                  configure a slicer (api new|old), dump its fields
+ *   D api fmt rate spl soff id                  configure a slicer (api new|old|renew), dump its fields; the search limit
+ *                                               (cri_samples / cri_bytes) is printed as a SIGNED number.  renew = a slicer that
+ *                                               was configured for a line of 4096 samples and is then given these parameters
+ *   N api fmt rate soff id lo hi                for which line lengths lo..hi does the configured slicer search at all:
+ *                                               runs [from,to,class], class 0 = refused or a search limit of 0, 1 = limit > 0,
+ *                                               -1 = limit < 0 (as a signed number)
  *   L api fmt rate spl soff id mode lo hi step seed hex
  *        one exactly sized line in front of a guard page; mode sig: the service's reference
  *        waveform with sampling offset o = lo..hi (step); noise|sat|sq: `lo..hi` are seeds/levels/phases;
  *        late: black up to sample o = lo..hi, then run-in and framing code of the service as rectangular pulses
+ *        cut: the samples o .. o + spl - 1 (o = lo..hi) of a whole scan line (64 us) with the service's reference waveform
+ *             at its documented position: a cropped / truncated line
+ *   H ...                                       like L, line and output buffer are exactly sized heap blocks (ASan is the monitor)
  *   A api fmt rate spl soff id o hex            the same single line on an exactly sized heap block (ASan)
  *   P fmt rate spl soff id o hex                new slicer with sampling points (8 bit luma formats)
  *   I api fmt rate bpl scanning s0 c0 s1 c1 interlaced synchronous       create a raw decoder
@@ -167,6 +175,12 @@ static int slicer_setup(slicer *s, const char *api, int fmt, int rate, int spl, 
 		s->ok = 1;
 	} else {
 		_vbi3_bit_slicer_init(&s->n);
+		if (!strcmp(api, "renew"))
+			vbi3_bit_slicer_set_params(&s->n, fmt, rate, 0, 4096,
+						   par->cri_frc >> par->frc_bits, par->cri_frc_mask >> par->frc_bits,
+						   par->cri_bits, par->cri_rate, ~0u,
+						   par->cri_frc & ((1U << par->frc_bits) - 1), par->frc_bits,
+						   par->payload, par->bit_rate, (vbi3_modulation) par->modulation);
 		s->ok = vbi3_bit_slicer_set_params(&s->n, fmt, rate, soff, spl,
 						   par->cri_frc >> par->frc_bits, par->cri_frc_mask >> par->frc_bits,
 						   par->cri_bits, par->cri_rate, ~0u,
@@ -197,36 +211,76 @@ static void cmd_D(char *a)
 	} else {
 		/* the low-pass variant is the only one that runs with oversampling 1 */
 		int lp = s.ok && s.n.oversampling_rate == (unsigned) rate;
-		printf("{\"ok\":%d,\"api\":\"new\",\"skip\":%u,\"scan\":%u,\"phase_shift\":%u,\"step\":%u,\"frc_bits\":%u,"
+		printf("{\"ok\":%d,\"api\":\"new\",\"skip\":%u,\"scan\":%d,\"phase_shift\":%u,\"step\":%u,\"frc_bits\":%u,"
 		       "\"payload\":%u,\"endian\":%u,\"cri_rate\":%u,\"osr\":%u,\"bps\":%u,\"lp\":%d,\"spl\":%d,\"soff\":%d,\"total_bits\":%u}\n",
-		       s.ok, s.n.skip, s.n.cri_samples, s.n.phase_shift, s.n.step, s.n.frc_bits, s.n.payload, s.n.endian,
+		       s.ok, s.n.skip, (int) s.n.cri_samples, s.n.phase_shift, s.n.step, s.n.frc_bits, s.n.payload, s.n.endian,
 		       s.n.cri_rate, s.n.oversampling_rate, s.n.bytes_per_sample, lp, spl, soff, s.n.total_bits);
 	}
 }
 
+static void cmd_N(char *a)
+{
+	char api[8]; int fmt, rate, soff, lo, hi, spl, from = 0, cls = 0, first = 1; unsigned id; slicer s;
+	if (sscanf(a, "%7s %d %d %d %x %d %d", api, &fmt, &rate, &soff, &id, &lo, &hi) != 7) { printf("{\"err\":\"args\"}\n"); return; }
+	printf("{\"runs\":[");
+	for (spl = lo; spl <= hi + 1; ++spl) {
+		int c = 0;
+		if (spl <= hi) {
+			int lim;
+			slicer_setup(&s, api, fmt, rate, spl, soff, id);
+			if (!s.par) break;
+			lim = s.is_old ? s.o.cri_bytes : (int) s.n.cri_samples;
+			c = !s.ok ? 0 : (lim > 0) - (lim < 0);
+		}
+		if (spl == lo) { from = spl; cls = c; continue; }
+		if (c != cls || spl > hi) {
+			printf("%s[%d,%d,%d]", first ? "" : ",", from, spl - 1, cls);
+			first = 0; from = spl; cls = c;
+		}
+	}
+	printf("]}\n");
+}
+
 #define MAXF 4000
-static void cmd_L(char *a)
+/* L: guard pages, H (heap != 0): exactly sized heap blocks under ASan */
+static void cmd_L(char *a, int heap)
 {
 	char api[8], mode[8], hex[200] = "";
 	int fmt, rate, spl, soff, lo, hi, step; unsigned id, seed;
 	slicer s; gbuf line, out; vbi_raw_decoder sp; vbi_sliced sl; unsigned lno;
-	int o, n = 0, dec = 0, good = 0, nf = 0, first_good = 0, last_good = 0, have_good = 0, genfail = 0;
+	int o, n = 0, dec = 0, good = 0, nf = 0, first_good = 0, last_good = 0, have_good = 0, genfail = 0, touched = 0;
 	static int fo[MAXF], fa[MAXF], fw[MAXF];
 	unsigned pbytes, bpp;
 	volatile int wfault = 0;
+	uint8_t *full = NULL; int full_spl = 0;
 
 	if (sscanf(a, "%7s %d %d %d %d %x %7s %d %d %d %u %199s", api, &fmt, &rate, &spl, &soff, &id, mode, &lo, &hi, &step, &seed, hex) < 11) {
 		printf("{\"err\":\"args\"}\n"); return;
 	}
-	if (!slicer_setup(&s, api, fmt, rate, spl, soff, id)) { printf("{\"ok\":0}\n"); return; }
+	/* a refused configuration is sliced as well: the call must return FALSE without touching anything */
+	slicer_setup(&s, api, fmt, rate, spl, soff, id);
+	if (!s.par || spl < 1) { printf("{\"ok\":0}\n"); return; }
 	bpp = bpp_of(fmt);
 	pbytes = (s.par->payload + 7) / 8;
-	if (!galloc(&line, (size_t) spl * bpp) || !galloc(&out, pbytes)) { printf("{\"err\":\"mmap\"}\n"); return; }
+	memset(&line, 0, sizeof line); memset(&out, 0, sizeof out);
+	if (heap) {
+		line.size = (size_t) spl * bpp; line.p = malloc(line.size);
+		out.size = pbytes; out.p = malloc(out.size);
+		if (!line.p || !out.p) { printf("{\"err\":\"malloc\"}\n"); return; }
+	} else if (!galloc(&line, (size_t) spl * bpp) || !galloc(&out, pbytes)) { printf("{\"err\":\"mmap\"}\n"); return; }
 	memset(&sl, 0, sizeof sl);
 	sl.id = id;
 	hex2bin(hex, sl.data, sizeof sl.data);
 	rnd_state = seed;
 	if (step <= 0) step = 1;
+	if (!strcmp(mode, "cut")) {
+		/* one whole scan line with the reference waveform at its documented position (sampling starts at 0H) */
+		full_spl = ((int) (rate * 64e-6) + 2) & ~1;
+		full = malloc((size_t) full_spl * bpp);
+		one_line_par(&sp, s.par, fmt, rate, full_spl, 0, &lno);
+		sl.line = lno;
+		if (!full || !render(full, (size_t) full_spl * bpp, &sp, 0, &sl, 1, 0)) { ++genfail; free(full); full = NULL; }
+	}
 	for (o = lo; o <= hi; o += step) {
 		int r;
 		++n;
@@ -234,6 +288,14 @@ static void cmd_L(char *a)
 			one_line_par(&sp, s.par, fmt, rate, spl, o, &lno);
 			sl.line = lno;
 			if (!render(line.p, line.size, &sp, 0, &sl, 1, 0)) { ++genfail; continue; }
+		} else if (!strcmp(mode, "cut")) {
+			long i;
+			if (!full) continue;
+			for (i = 0; i < (long) spl; ++i) {
+				long x = o + i;
+				if (x >= 0 && x < full_spl) memcpy(line.p + i * bpp, full + x * bpp, bpp);
+				else memset(line.p + i * bpp, 0, bpp);
+			}
 		} else if (!strcmp(mode, "noise")) {
 			size_t i;
 			rnd_state = seed + o * 2654435761u;
@@ -271,6 +333,13 @@ static void cmd_L(char *a)
 			}
 		}
 		memset(out.p, 0xA5, out.size);
+		if (heap) {
+			/* an access outside the blocks ends the process with an ASan report */
+			r = slicer_run(&s, line.p, out.p, out.size);
+			if (r) ++dec;
+			else { size_t i; for (i = 0; i < out.size; ++i) if (out.p[i] != 0xA5) { ++touched; break; } }
+			continue;
+		}
 		fault_addr = NULL;
 		armed = 1;
 		if (sigsetjmp(jb, 1) == 0) {
@@ -279,9 +348,9 @@ static void cmd_L(char *a)
 			if (r) {
 				++dec;
 				if (!strcmp(mode, "sig")) {
-					unsigned full = s.par->payload / 8, rest = s.par->payload & 7;
-					int eq = !memcmp(out.p, sl.data, full);
-					if (eq && rest) eq = ((out.p[full] ^ sl.data[full]) & ((1 << rest) - 1)) == 0;
+					unsigned full_ = s.par->payload / 8, rest = s.par->payload & 7;
+					int eq = !memcmp(out.p, sl.data, full_);
+					if (eq && rest) eq = ((out.p[full_] ^ sl.data[full_]) & ((1 << rest) - 1)) == 0;
 					if (eq) { ++good; if (!have_good) first_good = o; last_good = o; have_good = 1; }
 				}
 			}
@@ -299,11 +368,13 @@ static void cmd_L(char *a)
 			slicer_setup(&s, api, fmt, rate, spl, soff, id);
 		}
 	}
-	printf("{\"ok\":1,\"n\":%d,\"dec\":%d,\"good\":%d,\"genfail\":%d,\"first_good\":%d,\"last_good\":%d,\"have_good\":%d,\"nfault\":%d,\"wfault\":%d,\"faults\":[",
-	       n, dec, good, genfail, first_good, last_good, have_good, nf, wfault);
+	printf("{\"ok\":1,\"cfg_ok\":%d,\"n\":%d,\"dec\":%d,\"good\":%d,\"genfail\":%d,\"first_good\":%d,\"last_good\":%d,\"have_good\":%d,\"touched\":%d,\"nfault\":%d,\"wfault\":%d,\"faults\":[",
+	       s.ok, n, dec, good, genfail, first_good, last_good, have_good, touched, nf, wfault);
 	for (o = 0; o < nf; ++o) printf("%s[%d,%d,%d]", o ? "," : "", fo[o], fa[o], fw[o]);
 	printf("]}\n");
-	gfree(&line); gfree(&out);
+	free(full);
+	if (heap) { free(line.p); free(out.p); }
+	else { gfree(&line); gfree(&out); }
 }
 
 /* exactly sized heap blocks: the sanitizer run-time is the monitor */
@@ -585,7 +656,9 @@ int main(void)
 		case 'R': dec_drop(1); printf("{\"reset\":1}\n"); break;
 		case 'T': cmd_T(); break;
 		case 'D': cmd_D(a); break;
-		case 'L': cmd_L(a); break;
+		case 'N': cmd_N(a); break;
+		case 'L': cmd_L(a, 0); break;
+		case 'H': cmd_L(a, 1); break;
 		case 'A': cmd_A(a); break;
 		case 'P': cmd_P(a); break;
 		case 'I': cmd_I(a); break;
